@@ -571,10 +571,15 @@ def check_sampling(ses, beh, built, rows, h, tier):
     if 0 not in ses.compiled:
         return
     exp = beh["expect"][0]
-    if exp["nouts"] != 1 or len(exp["table"][0][0]) != 1 or len(exp["scope"]) != built.V:
-        return
+    D = len(exp["scope"])
+    if exp["nouts"] != 1 or len(exp["table"][0][0]) != 1 or exp["scope"] != list(range(1, D + 1)):
+        return             # the query returns one column per variable of scopes 0..D-1
     cc = ses.compiled[0]
-    p = np.array([nums.cfloat(exp["table"][q][0][0]).real for q in range(len(rows))])
+    # the distribution over the variables of the scope (the other model variables are fixed to 0)
+    keep = [q for q, r in enumerate(rows) if all(v == 0 for v in r[D:])]
+    full_rows = rows
+    rows = [tuple(full_rows[q][:D]) for q in keep]
+    p = np.array([nums.cfloat(exp["table"][q][0][0]).real for q in keep])
     if np.any(p < 0) or abs(p.sum() - 1.0) > 1e-12:
         ses.fail("model_not_normalised", detail=f"sum {p.sum()}")      # machinery: wrong scheme
         return
@@ -594,8 +599,8 @@ def check_sampling(ses, beh, built, rows, h, tier):
                  layer_types=sorted({type(l).__name__ for l in cc.layers}))
         return
     ses.res["evals"] += 1
-    if tuple(smp.shape) != (n, built.V):
-        ses.fail("sample_shape", detail=f"observed {tuple(smp.shape)} expected {(n, built.V)}")
+    if tuple(smp.shape) != (n, D):
+        ses.fail("sample_shape", detail=f"observed {tuple(smp.shape)} expected {(n, D)}")
         return
     arr = smp.detach().cpu().numpy()
     if not np.all(arr == np.round(arr)):
